@@ -253,6 +253,10 @@ func (c *Ctx) runRefCases(kind string, progs []*zr.Program, inputs []map[string]
 		}
 		if extra != nil {
 			extra(i, srcs[i], refs[i], resp)
+		} else {
+			// every successful run ends with nothing left behind in the VM (call stack, scope
+			// depths, evaluation depth): hooks H3 / H3b / H4
+			quiescent(c, kind, shape, srcs[i], resp)
 		}
 	})
 }
@@ -416,6 +420,8 @@ func checkC01(c *Ctx) {
 		{"compared-inside-one-expression", "令丁 = “1*^3”\n输出 丁 为 “1*^3” 且 以丁（转换数值） == 1000 且 丁 为 “1*^3”\n", "bool(true)"},
 		{"failed-conversion-keeps-the-text", "令丁 = “1*^x”\n如何试？\n\t输入文\n\t输出 以文（转换数值）\n\n\t拦截异常：\n\t\t输出 -1\n令果 = （试：丁）\n输出【果，丁 为 “1*^x”】\n", "list[num(-1),bool(true)]"},
 		{"literal-converted-twice", "如何读？\n\t输出 “2*10^3”\n输出【以（读）（转换数值），以（读）（转换数值），（读） 为 “2*10^3”】\n", "list[num(2000),num(2000),bool(true)]"},
+		{"values-after-handled-faults", "如何试？\n\t输入甲、乙\n\t输出 {甲 / 乙 + 1} * 2\n\n\t拦截异常：\n\t\t输出 -1\n令和 = 0\n以项遍历【0，1，0，2】：\n\t和 = 和 + （试：1、项）\n输出【和，1 + 2 * 3，20 - {5 + 10} * 7，7 | 2 == 3 或 1 / 0 > 1】\n", "list[num(5),num(7),num(-85),bool(true)]"},
+		{"values-after-handled-type-errors", "如何试？\n\t输入甲\n\t输出 {甲 * 2 > 3} 且 真\n\n\t拦截异常：\n\t\t输出 假\n输出【（试：“文”），（试：5），（试：空），（试：1），2 % 3 * {4 - 1}】\n", "list[bool(false),bool(true),bool(false),bool(false),num(6)]"},
 		{"length-after-conversion", "令丁 = “12*10^3”\n令数 = 以丁（转换数值）\n输出【丁之长度，数】\n", "list[num(7),num(12000)]"},
 	})
 }
